@@ -8,6 +8,7 @@ ORACLES = ["c03"]
 def run(tier, seed):
     tasks = PC.make_tasks(tier, seed, ORACLES, layouts=["comments"], layout_depth=1)
     results = pool.run_tasks("checks.parser_common:task", tasks)
+    results += pool.run_tasks("checks.parser_common:valid_task", PC.valid_tasks(tier, seed, ORACLES))
     cov, viols, harness = PC.assemble(results)
     return dict(violations=viols, coverage=cov, harness_errors=harness, assumptions=PC.ASSUMPTIONS)
 
